@@ -4,6 +4,10 @@ tokens: a tokenizer `tokValue` with the same shape as `reformatValue`, and the p
 Core Lean only.
 -/
 import JsonV.Lemmas.EncValue
+import JsonV.Lemmas.GlueEncQuote
+import JsonV.Lemmas.GlueNameKey
+import JsonV.Lemmas.QuoteWf
+import JsonV.Lemmas.WireValue
 
 namespace JsonV.Lemmas.EncRaw
 open JsonV JsonV.Model JsonV.Model.Encoder JsonV.Spec JsonV.Spec.PDA JsonV.Spec.Render JsonV.Spec.Names
@@ -164,6 +168,106 @@ theorem sep_close_arr (o : Opts) (n : Nat) (g : Frame) (r : List Frame) :
 
 /-! ### The induction -/
 
+/-! ### Token-by-token acceptability (`Good`): every string passes the UTF-8 check and every name is fresh -/
+
+/-- Along the tokens (frames and names advancing as `track` does): each token passes the UTF-8 check and, unless
+duplicates are allowed, each member name is fresh. Together with `trackRun … = some _` this is acceptance by `WriteToken`. -/
+def Good (o : Opts) : Frames → List (List Bytes) → List Tok → Prop
+  | _, _, [] => True
+  | fs, ns, t :: ts =>
+    badUTF8 o t = false ∧ (o.allowDup = false → Fresh o fs ns t) ∧
+      match step o.maxDepth fs (kindOf t) with
+      | some fs' => Good o fs' (namesStep o fs ns t) ts
+      | none => True
+
+theorem good_cons {o : Opts} {fs fs' : Frames} {ns : List (List Bytes)} {t : Tok} {ts : List Tok}
+    (hs : step o.maxDepth fs (kindOf t) = some fs') (hb : badUTF8 o t = false)
+    (hf : o.allowDup = false → Fresh o fs ns t) (hg : Good o fs' (namesStep o fs ns t) ts) :
+    Good o fs ns (t :: ts) := by
+  simp only [Good, hs]; exact ⟨hb, hf, hg⟩
+
+theorem good_append (o : Opts) (a b : List Tok) : ∀ (fs fs' : Frames) (ns ns' : List (List Bytes)),
+    Good o fs ns a → trackRun o fs ns a = some (fs', ns') → Good o fs' ns' b → Good o fs ns (a ++ b) := by
+  induction a with
+  | nil => intro fs fs' ns ns' _ htr hb; simp [trackRun] at htr; obtain ⟨h1, h2⟩ := htr; subst h1 h2; exact hb
+  | cons t a ih =>
+    intro fs fs' ns ns' hg htr hb
+    simp only [trackRun] at htr
+    cases hs : step o.maxDepth fs (kindOf t) with
+    | none => rw [hs] at htr; cases htr
+    | some fs1 =>
+      rw [hs] at htr
+      simp only [Good, hs] at hg
+      exact good_cons hs hg.1 hg.2.1 (ih _ _ _ _ hg.2.2 htr hb)
+
+theorem fresh_nonstr (o : Opts) (fs : Frames) (ns : List (List Bytes)) (t : Tok) (h : ∀ s, t ≠ .str s) :
+    Fresh o fs ns t := fun s hs => absurd hs (h s)
+
+theorem good_single {o : Opts} {fs : Frames} {ns : List (List Bytes)} {t : Tok} (hb : badUTF8 o t = false)
+    (hf : o.allowDup = false → Fresh o fs ns t) : Good o fs ns [t] := by
+  simp only [Good]; refine ⟨hb, hf, ?_⟩; split <;> trivial
+
+theorem good_open_obj (o : Opts) (f : Frame) (r0 : List Frame) (ns : List (List Bytes)) (ts : List Tok)
+    (hf : f.needName = false) (hl : r0.length < o.maxDepth)
+    (hg : Good o (.obj 0 :: f.bump :: r0) ([] :: ns) ts) : Good o (f :: r0) ns (.beginObj :: ts) :=
+  good_cons (fs' := .obj 0 :: f.bump :: r0) (by simp [step, kindOf, hf, hl]) rfl
+    (fun _ => fresh_nonstr _ _ _ _ (by intro s h; cases h)) hg
+
+theorem good_open_arr (o : Opts) (f : Frame) (r0 : List Frame) (ns : List (List Bytes)) (ts : List Tok)
+    (hf : f.needName = false) (hl : r0.length < o.maxDepth)
+    (hg : Good o (.arr 0 :: f.bump :: r0) ns ts) : Good o (f :: r0) ns (.beginArr :: ts) :=
+  good_cons (fs' := .arr 0 :: f.bump :: r0) (by simp [step, kindOf, hf, hl]) rfl
+    (fun _ => fresh_nonstr _ _ _ _ (by intro s h; cases h)) hg
+
+theorem good_close_obj (o : Opts) (n : Nat) (g : Frame) (r : List Frame) (top : List Bytes) (ns : List (List Bytes))
+    (ts : List Tok) (hn : n % 2 = 0) (hg : Good o (g :: r) ns ts) :
+    Good o (.obj n :: g :: r) (top :: ns) (.endObj :: ts) :=
+  good_cons (fs' := g :: r) (by simp [step, kindOf, hn]) rfl
+    (fun _ => fresh_nonstr _ _ _ _ (by intro s h; cases h)) hg
+
+theorem good_close_arr (o : Opts) (n : Nat) (g : Frame) (r : List Frame) (ns : List (List Bytes))
+    (ts : List Tok) (hg : Good o (g :: r) ns ts) : Good o (.arr n :: g :: r) ns (.endArr :: ts) :=
+  good_cons (fs' := g :: r) (by simp [step, kindOf]) rfl
+    (fun _ => fresh_nonstr _ _ _ _ (by intro s h; cases h)) hg
+
+theorem good_name (o : Opts) (n : Nat) (g : Frame) (r : List Frame) (top : List Bytes) (ns : List (List Bytes))
+    (name : Bytes) (ts : List Tok) (hn : n % 2 = 0) (hb : badUTF8 o (.str name) = false)
+    (hf : o.allowDup = false → nameOf o name ∉ top)
+    (hg : Good o (.obj (n + 1) :: g :: r) ((top ++ [nameOf o name]) :: ns) ts) :
+    Good o (.obj n :: g :: r) (top :: ns) (.str name :: ts) := by
+  refine good_cons (fs' := .obj (n + 1) :: g :: r) (by simp [step, kindOf, Frame.bump]) hb ?_ ?_
+  · intro hd s hs _; cases hs; exact hf hd
+  · simpa [namesStep, isNamePos, Frame.needName, hn] using hg
+
+theorem good_scalar (o : Opts) (f : Frame) (r0 : List Frame) (ns : List (List Bytes)) (t : Tok)
+    (hf : f.needName = false) (hb : badUTF8 o t = false) : Good o (f :: r0) ns [t] :=
+  good_single hb (fun _ s _ hp => by simp [isNamePos, hf] at hp)
+
+/-- The unescaped value of an accepted string literal is well-formed UTF-8; as a token it passes the UTF-8
+check and is read back unchanged from the literal the encoder emits for it. -/
+theorem reformatString_name {o : Opts} {src q name r : Bytes} (h : reformatString o src = .ok (q, name, r)) :
+    badUTF8 o (.str name) = false ∧ nameOf o name = name := by
+  unfold reformatString at h
+  split at h
+  rename_i n fl e hvs
+  split at h
+  · rename_i he
+    subst he
+    simp only [Except.ok.injEq, Prod.mk.injEq] at h
+    have hname : name = Validate.unescapedName (src.take n) fl := h.2.1.symm
+    have hj := (JsonV.Lemmas.WireValue.valueString_sound (vopts o) src n fl hvs).2
+    have ht := JsonV.Lemmas.WireValue.valueString_take (vopts o) src n fl hvs
+    have hfl : fl = (Validate.valueString (vopts o) (src.take n)).2.1 := by rw [ht]
+    have hu := JsonV.Lemmas.GlueNameKey.unescapedName_valueString (vopts o) (src.take n) hj
+    rw [← hfl, ← hname, JsonV.Lemmas.GlueQuote.unquote_eq] at hu
+    have hwf : JsonV.Spec.StringSpec.WellFormed name := by
+      rw [hu]; exact JsonV.Lemmas.QuoteWf.appendUnquote_wellFormed _
+    refine ⟨?_, JsonV.Lemmas.GlueEncQuote.unquote_appendQuote_wellFormed o name hwf⟩
+    rw [JsonV.Lemmas.EncUtf8.badUTF8_str_iff]
+    right
+    exact (JsonV.Lemmas.QuoteMeaning.validAux_iff name.length name (Nat.le_refl _)).mpr hwf
+  · cases h
+
 def PV (o : Opts) (fuel : Nat) : Prop :=
   ∀ (pre dst src dst' rest : Bytes) (f : Frame) (r0 : List Frame),
     f.needName = false → (f :: r0).length ≤ o.maxDepth + 1 →
@@ -171,7 +275,7 @@ def PV (o : Opts) (fuel : Nat) : Prop :=
     reformatValue o fuel dst src (f :: r0).length = .ok (dst', rest) →
     ∃ toks, tokValue o fuel src = some (toks, rest) ∧ (∀ more,
       pre ++ renderFrom o (f :: r0) (toks ++ more) = dst' ++ NL (f.bump :: r0) ++ renderFrom o (f.bump :: r0) more) ∧
-      ∀ ns, trackRun o (f :: r0) ns toks = some (f.bump :: r0, ns)
+      (∀ ns, trackRun o (f :: r0) ns toks = some (f.bump :: r0, ns)) ∧ ∀ ns, Good o (f :: r0) ns toks
 
 def PO (o : Opts) (fuel : Nat) : Prop :=
   ∀ (pre dst src dst' rest : Bytes) (n : Nat) (g : Frame) (r : List Frame) (names : List Bytes),
@@ -180,7 +284,8 @@ def PO (o : Opts) (fuel : Nat) : Prop :=
     objectLoop o fuel dst src (r.length + 2) names = .ok (dst', rest) →
     ∃ toks, tokObj o fuel src = some (toks, rest) ∧ (∀ more,
       pre ++ renderFrom o (.obj n :: g :: r) (toks ++ more) = dst' ++ NL (g :: r) ++ renderFrom o (g :: r) more) ∧
-      ∀ top ns, trackRun o (.obj n :: g :: r) (top :: ns) toks = some (g :: r, ns)
+      (∀ top ns, trackRun o (.obj n :: g :: r) (top :: ns) toks = some (g :: r, ns)) ∧
+      ∀ top ns, (o.allowDup = false → top = names) → Good o (.obj n :: g :: r) (top :: ns) toks
 
 def PA (o : Opts) (fuel : Nat) : Prop :=
   ∀ (pre dst src dst' rest : Bytes) (n : Nat) (g : Frame) (r : List Frame),
@@ -189,7 +294,7 @@ def PA (o : Opts) (fuel : Nat) : Prop :=
     arrayLoop o fuel dst src (r.length + 2) = .ok (dst', rest) →
     ∃ toks, tokArr o fuel src = some (toks, rest) ∧ (∀ more,
       pre ++ renderFrom o (.arr n :: g :: r) (toks ++ more) = dst' ++ NL (g :: r) ++ renderFrom o (g :: r) more) ∧
-      ∀ ns, trackRun o (.arr n :: g :: r) ns toks = some (g :: r, ns)
+      (∀ ns, trackRun o (.arr n :: g :: r) ns toks = some (g :: r, ns)) ∧ ∀ ns, Good o (.arr n :: g :: r) ns toks
 
 /-! ### `trackRun` facts -/
 
@@ -316,7 +421,7 @@ theorem pv_step (o : Opts) (fuel : Nat) (hO : PO o fuel) (hA : PA o fuel) : PV o
         obtain ⟨h1, h2⟩ := h
         subst h1 h2
         refine ⟨[.null], ?_, fun more => scalar_render o pre dst f r0 .null more hf (Or.inl rfl) hd,
-          fun ns => tr_scalar o f r0 ns .null hf (Or.inl rfl)⟩
+          fun ns => tr_scalar o f r0 ns .null hf (Or.inl rfl), fun ns => good_scalar o f r0 ns .null hf rfl⟩
         simp only [tokValue, k1, if_true, litNull, hl]
     rw [if_neg k1] at h
     by_cases k2 : normKind c = 0x66
@@ -329,7 +434,7 @@ theorem pv_step (o : Opts) (fuel : Nat) (hO : PO o fuel) (hA : PA o fuel) : PV o
         obtain ⟨h1, h2⟩ := h
         subst h1 h2
         refine ⟨[.fals], ?_, fun more => scalar_render o pre dst f r0 .fals more hf (Or.inl rfl) hd,
-          fun ns => tr_scalar o f r0 ns .fals hf (Or.inl rfl)⟩
+          fun ns => tr_scalar o f r0 ns .fals hf (Or.inl rfl), fun ns => good_scalar o f r0 ns .fals hf rfl⟩
         simp [tokValue, k2, litFalse, hl]
     rw [if_neg k2] at h
     by_cases k3 : normKind c = 0x74
@@ -342,7 +447,7 @@ theorem pv_step (o : Opts) (fuel : Nat) (hO : PO o fuel) (hA : PA o fuel) : PV o
         obtain ⟨h1, h2⟩ := h
         subst h1 h2
         refine ⟨[.tru], ?_, fun more => scalar_render o pre dst f r0 .tru more hf (Or.inl rfl) hd,
-          fun ns => tr_scalar o f r0 ns .tru hf (Or.inl rfl)⟩
+          fun ns => tr_scalar o f r0 ns .tru hf (Or.inl rfl), fun ns => good_scalar o f r0 ns .tru hf rfl⟩
         simp [tokValue, k3, litTrue, hl]
     rw [if_neg k3] at h
     by_cases k4 : normKind c = 0x22
@@ -355,7 +460,8 @@ theorem pv_step (o : Opts) (fuel : Nat) (hO : PO o fuel) (hA : PA o fuel) : PV o
         simp only [Except.map, Except.ok.injEq, Prod.mk.injEq] at h
         obtain ⟨h1, h2⟩ := h
         subst h1 h2
-        refine ⟨[.str name], ?_, fun more => ?_, fun ns => tr_scalar o f r0 ns (.str name) hf (Or.inr (Or.inl rfl))⟩
+        refine ⟨[.str name], ?_, fun more => ?_, fun ns => tr_scalar o f r0 ns (.str name) hf (Or.inr (Or.inl rfl)),
+          fun ns => good_scalar o f r0 ns (.str name) hf (reformatString_name hl).1⟩
         · simp [tokValue, k4, hl]
         · have := scalar_render o pre dst f r0 (.str name) more hf (Or.inr (Or.inl rfl)) hd
           rw [this, reformatString_out hl]; rfl
@@ -371,7 +477,7 @@ theorem pv_step (o : Opts) (fuel : Nat) (hO : PO o fuel) (hA : PA o fuel) : PV o
         obtain ⟨h1, h2⟩ := h
         subst h1 h2
         refine ⟨[.num nt], ?_, fun more => scalar_render o pre dst f r0 (.num nt) more hf (Or.inr (Or.inr rfl)) hd,
-          fun ns => tr_scalar o f r0 ns (.num nt) hf (Or.inr (Or.inr rfl))⟩
+          fun ns => tr_scalar o f r0 ns (.num nt) hf (Or.inr (Or.inr rfl)), fun ns => good_scalar o f r0 ns (.num nt) hf rfl⟩
         simp [tokValue, k5, hl]
     rw [if_neg k5] at h
     have hbump : f.bump.needName = f.bump.needName := rfl
@@ -393,7 +499,8 @@ theorem pv_step (o : Opts) (fuel : Nat) (hO : PO o fuel) (hA : PA o fuel) : PV o
           obtain ⟨h1, h2⟩ := h
           subst h1 h2
           refine ⟨[.beginObj, .endObj], ?_, fun more => ?_, fun ns => by
-            rw [tr_open_obj o f r0 ns _ hf hl, tr_close_obj o 0 f.bump r0 [] ns [] rfl]; rfl⟩
+            rw [tr_open_obj o f r0 ns _ hf hl, tr_close_obj o 0 f.bump r0 [] ns [] rfl]; rfl,
+            fun ns => good_open_obj o f r0 ns _ hf hl (good_close_obj o 0 f.bump r0 [] ns [] rfl trivial)⟩
           · simp [tokValue, k6, hw', hc]
           · simp only [List.cons_append, List.nil_append]
             rw [open_obj_render o f r0 _ hf hl, close_obj_render o 0 f.bump r0 more rfl, hd]
@@ -401,10 +508,11 @@ theorem pv_step (o : Opts) (fuel : Nat) (hO : PO o fuel) (hA : PA o fuel) : PV o
         · rw [if_neg hc] at h
           have hdep : (f :: r0).length + 1 = r0.length + 2 := by simp
           rw [hdep] at h
-          obtain ⟨toks, ht, hr, htr⟩ := hO (pre ++ sepBytes o (f :: r0) .lit ++ [0x7b]) (dst ++ [0x7b]) (c1 :: r1) dst' rest
+          obtain ⟨toks, ht, hr, htr, hgd⟩ := hO (pre ++ sepBytes o (f :: r0) .lit ++ [0x7b]) (dst ++ [0x7b]) (c1 :: r1) dst' rest
             0 f.bump r0 [] rfl (by simp; omega) (by simp [commaPart, hd]) h
           refine ⟨.beginObj :: toks, ?_, fun more => ?_, fun ns => by
-            rw [tr_open_obj o f r0 ns _ hf hl]; exact htr [] ns⟩
+            rw [tr_open_obj o f r0 ns _ hf hl]; exact htr [] ns,
+            fun ns => good_open_obj o f r0 ns _ hf hl (hgd [] ns (fun _ => rfl))⟩
           · simp [tokValue, k6, hw', hc, ht]
           · simp only [List.cons_append]
             rw [open_obj_render o f r0 _ hf hl, ← hr more]
@@ -428,7 +536,8 @@ theorem pv_step (o : Opts) (fuel : Nat) (hO : PO o fuel) (hA : PA o fuel) : PV o
           obtain ⟨h1, h2⟩ := h
           subst h1 h2
           refine ⟨[.beginArr, .endArr], ?_, fun more => ?_, fun ns => by
-            rw [tr_open_arr o f r0 ns _ hf hl, tr_close_arr o 0 f.bump r0 ns []]; rfl⟩
+            rw [tr_open_arr o f r0 ns _ hf hl, tr_close_arr o 0 f.bump r0 ns []]; rfl,
+            fun ns => good_open_arr o f r0 ns _ hf hl (good_close_arr o 0 f.bump r0 ns [] trivial)⟩
           · simp [tokValue, k7, hw', hc]
           · simp only [List.cons_append, List.nil_append]
             rw [open_arr_render o f r0 _ hf hl, close_arr_render o 0 f.bump r0 more, hd]
@@ -436,10 +545,11 @@ theorem pv_step (o : Opts) (fuel : Nat) (hO : PO o fuel) (hA : PA o fuel) : PV o
         · rw [if_neg hc] at h
           have hdep : (f :: r0).length + 1 = r0.length + 2 := by simp
           rw [hdep] at h
-          obtain ⟨toks, ht, hr, htr⟩ := hA (pre ++ sepBytes o (f :: r0) .lit ++ [0x5b]) (dst ++ [0x5b]) (c1 :: r1) dst' rest
+          obtain ⟨toks, ht, hr, htr, hgd⟩ := hA (pre ++ sepBytes o (f :: r0) .lit ++ [0x5b]) (dst ++ [0x5b]) (c1 :: r1) dst' rest
             0 f.bump r0 (by simp; omega) (by simp [commaPart, hd]) h
           refine ⟨.beginArr :: toks, ?_, fun more => ?_, fun ns => by
-            rw [tr_open_arr o f r0 ns _ hf hl]; exact htr ns⟩
+            rw [tr_open_arr o f r0 ns _ hf hl]; exact htr ns,
+            fun ns => good_open_arr o f r0 ns _ hf hl (hgd ns)⟩
           · simp [tokValue, k7, hw', hc, ht]
           · simp only [List.cons_append]
             rw [open_arr_render o f r0 _ hf hl, ← hr more]
@@ -471,7 +581,7 @@ theorem pa_step (o : Opts) (fuel : Nat) (hV : PV o fuel) (hA : PA o fuel) : PA o
       obtain ⟨dst2, s1⟩ := p
       rw [hv] at h
       simp only at h
-      obtain ⟨tv, htv, hrv, htrv⟩ := hV pre _ (c0 :: s0) dst2 s1 (.arr n) (g :: r) rfl
+      obtain ⟨tv, htv, hrv, htrv, hgv⟩ := hV pre _ (c0 :: s0) dst2 s1 (.arr n) (g :: r) rfl
         (by simp at hlen ⊢; omega)
         (by rw [hd, sep_elem o n g r .lit rfl, ← hfr, List.append_assoc]) hv
       cases hw : skipWS s1 with
@@ -481,9 +591,10 @@ theorem pa_step (o : Opts) (fuel : Nat) (hV : PV o fuel) (hA : PA o fuel) : PA o
         simp only at h
         by_cases hc : c2 = 0x2c
         · rw [if_pos hc, comma_eq o dst2 n, ← hfr] at h
-          obtain ⟨ts, hts, hrs, htrs⟩ := hA dst2 _ s2 dst' rest (n + 1) g r hlen rfl h
+          obtain ⟨ts, hts, hrs, htrs, hgs⟩ := hA dst2 _ s2 dst' rest (n + 1) g r hlen rfl h
           refine ⟨tv ++ ts, ?_, fun more => ?_, fun ns => by
-            rw [trackRun_append, htrv ns]; exact htrs ns⟩
+            rw [trackRun_append, htrv ns]; exact htrs ns,
+            fun ns => good_append o tv ts _ _ ns ns (hgv ns) (htrv ns) (hgs ns)⟩
           · simp [tokArr, hs, htv, hw, hc, hts]
           · have hb : (Frame.arr n).bump = Frame.arr (n + 1) := rfl
             rw [List.append_assoc, hrv (ts ++ more), hb, NL_deep, List.append_nil, hrs more]
@@ -495,7 +606,9 @@ theorem pa_step (o : Opts) (fuel : Nat) (hV : PV o fuel) (hA : PA o fuel) : PA o
             subst h1 h2
             refine ⟨tv ++ [.endArr], ?_, fun more => ?_, fun ns => by
               rw [trackRun_append, htrv ns]
-              exact (tr_close_arr o (n + 1) g r ns []).trans rfl⟩
+              exact (tr_close_arr o (n + 1) g r ns []).trans rfl,
+              fun ns => good_append o tv [.endArr] _ _ ns ns (hgv ns) (htrv ns)
+                (good_close_arr o (n + 1) g r ns [] trivial)⟩
             · simp [tokArr, hs, htv, hw, hc2]
             · have hb : (Frame.arr n).bump = Frame.arr (n + 1) := rfl
               rw [List.append_assoc, List.singleton_append, hrv (Tok.endArr :: more), hb, NL_deep, List.append_nil,
@@ -533,6 +646,7 @@ theorem po_step (o : Opts) (fuel : Nat) (hV : PV o fuel) (hO : PO o fuel) : PO o
       simp only at h
       split at h
       · cases h
+      rename_i hdupn
       cases hw : skipWS s1 with
       | nil => rw [hw] at h; cases h
       | cons c2 s2 =>
@@ -555,7 +669,7 @@ theorem po_step (o : Opts) (fuel : Nat) (hV : PV o fuel) (hO : PO o fuel) : PO o
               rw [hv] at h
               simp only at h
               have hodd : (n + 1) % 2 = 1 := by omega
-              obtain ⟨tv, htv, hrv, htrv⟩ := hV (dst ++ ind o (Frame.obj (n + 1) :: g :: r).length ++ q) _ (c3 :: s3) dst5 s4
+              obtain ⟨tv, htv, hrv, htrv, hgv⟩ := hV (dst ++ ind o (Frame.obj (n + 1) :: g :: r).length ++ q) _ (c3 :: s3) dst5 s4
                 (.obj (n + 1)) (g :: r) (by simp [Frame.needName, hodd]) (by simp at hlen ⊢; omega)
                 (by rw [sep_member_value o (n + 1) g r hodd]) hv
               have hb : (Frame.obj (n + 1)).bump = Frame.obj (n + 2) := rfl
@@ -571,10 +685,17 @@ theorem po_step (o : Opts) (fuel : Nat) (hV : PV o fuel) (hO : PO o fuel) : PO o
                 simp only at h
                 by_cases hc5 : c5 = 0x2c
                 · rw [if_pos hc5, comma_eq o dst5 (n + 1), ← hfr] at h
-                  obtain ⟨ts, hts, hrs, htrs⟩ := hO dst5 _ s5 dst' rest (n + 2) g r _ (by omega) hlen rfl h
+                  obtain ⟨ts, hts, hrs, htrs, hgs⟩ := hO dst5 _ s5 dst' rest (n + 2) g r _ (by omega) hlen rfl h
                   refine ⟨.str name :: tv ++ ts, ?_, fun more => ?_, fun top ns => by
                     rw [List.cons_append, tr_name o n g r top ns name _ hn, trackRun_append, htrv]
-                    exact htrs _ ns⟩
+                    exact htrs _ ns,
+                    fun top ns htop => by
+                      rw [List.cons_append]
+                      refine good_name o n g r top ns name _ hn (reformatString_name hq).1 (fun hd => ?_)
+                        (good_append o tv ts _ _ _ _ (hgv _) (htrv _) (hgs _ ns (fun hd => ?_)))
+                      · rw [(reformatString_name hq).2, htop hd]
+                        intro hm; exact hdupn (by simp [hd]; exact hm)
+                      · rw [(reformatString_name hq).2, htop hd]; simp [hd]⟩
                   · simp [tokObj, hs, hq, hw, hc, hw3, htv, hw5, hc5, hts]
                   · have e1 : (Tok.str name :: tv ++ ts) ++ more = Tok.str name :: (tv ++ (ts ++ more)) := by simp
                     rw [e1, hpre, hrv (ts ++ more), hb, NL_deep, List.append_nil, hrs more]
@@ -586,7 +707,14 @@ theorem po_step (o : Opts) (fuel : Nat) (hV : PV o fuel) (hO : PO o fuel) : PO o
                     subst h1 h2
                     refine ⟨.str name :: tv ++ [.endObj], ?_, fun more => ?_, fun top ns => by
                       rw [List.cons_append, tr_name o n g r top ns name _ hn, trackRun_append, htrv]
-                      exact (tr_close_obj o (n + 2) g r _ ns [] (by omega)).trans rfl⟩
+                      exact (tr_close_obj o (n + 2) g r _ ns [] (by omega)).trans rfl,
+                      fun top ns htop => by
+                        rw [List.cons_append]
+                        refine good_name o n g r top ns name _ hn (reformatString_name hq).1 (fun hd => ?_)
+                          (good_append o tv [.endObj] _ _ _ _ (hgv _) (htrv _)
+                            (good_close_obj o (n + 2) g r _ ns [] (by omega) trivial))
+                        rw [(reformatString_name hq).2, htop hd]
+                        intro hm; exact hdupn (by simp [hd]; exact hm)⟩
                     · simp [tokObj, hs, hq, hw, hc, hw3, htv, hw5, hc5, hc6]
                     · have e1 : (Tok.str name :: tv ++ [Tok.endObj]) ++ more = Tok.str name :: (tv ++ (Tok.endObj :: more)) := by
                         simp
@@ -735,8 +863,8 @@ theorem string_value (o : Opts) (fuel : Nat) (pre dst dst' rest : Bytes) (c : UI
     (hd : dst = pre ++ sepBytes o (f :: r0) .lit)
     (h : reformatValue o (fuel + 1) dst (c :: s) d = .ok (dst', rest)) :
     ∃ name, tokValue o (fuel + 1) (c :: s) = some ([.str name], rest) ∧ dst' = dst ++ (appendQuote o name).1 ∧
-      ∀ more, pre ++ renderFrom o (f :: r0) ([.str name] ++ more) =
-        dst' ++ NL (f.bump :: r0) ++ renderFrom o (f.bump :: r0) more := by
+      (∀ more, pre ++ renderFrom o (f :: r0) ([.str name] ++ more) =
+        dst' ++ NL (f.bump :: r0) ++ renderFrom o (f.bump :: r0) more) ∧ badUTF8 o (.str name) = false := by
   simp only [reformatValue] at h
   have k1 : ¬ normKind c = 0x6e := by rw [hk]; decide
   have k2 : ¬ normKind c = 0x66 := by rw [hk]; decide
@@ -750,7 +878,7 @@ theorem string_value (o : Opts) (fuel : Nat) (pre dst dst' rest : Bytes) (c : UI
     simp only [Except.map, Except.ok.injEq, Prod.mk.injEq] at h
     obtain ⟨h1, h2⟩ := h
     subst h1 h2
-    refine ⟨name, by simp [tokValue, hk, hl], by rw [reformatString_out hl], fun more => ?_⟩
+    refine ⟨name, by simp [tokValue, hk, hl], by rw [reformatString_out hl], fun more => ?_, (reformatString_name hl).1⟩
     have hs : step o.maxDepth (f :: r0) (kindOf (.str name)) = some (f.bump :: r0) := by simp [step, kindOf]
     have hsep : sepBytes o (f :: r0) (kindOf (.str name)) = sepBytes o (f :: r0) .lit := sep_indep _ _ _ _ rfl
     simp only [List.singleton_append, renderFrom_cons more hs, hsep, hd, List.append_assoc, tokText,
@@ -961,7 +1089,7 @@ theorem writeValue_inv {o : Opts} {b : Nat} {fs : Frames} {ns : List (List Bytes
     (hI : EncInv o b fs ns e) (hb : b + 2 < 2^61) (v : Bytes) (h : writeValue e v = (e', none)) :
     ∃ toks rest fs' ns', tokValue o (3 * v.length + 4) (skipWS v) = some (toks, rest) ∧
       e'.out = e.out ++ renderFrom o fs toks ∧ trackRun o fs ns toks = some (fs', ns') ∧
-      EncInv o (b + 2) fs' ns' e' := by
+      EncInv o (b + 2) fs' ns' e' ∧ Good o fs ns toks := by
   rw [writeValue_nf, hI.opts] at h
   cases hr : reformatValue o (3 * v.length + 4) (beforeToken e (valueKind v)) (skipWS v) e.m.depth with
   | error err => rw [hr] at h; simp at h
@@ -1008,11 +1136,17 @@ theorem writeValue_inv {o : Opts} {b : Nat} {fs : Frames} {ns : List (List Bytes
             simp [NL, hst]
           by_cases hq : normKind c = 0x22
           · -- a raw string, possibly a member name
-            obtain ⟨name, ht, hdst, hrn⟩ := string_value o (3 * v.length + 3) e.out _ b' rest c s f r0 _ hq hbt hr
+            obtain ⟨name, ht, hdst, hrn, hbadn⟩ := string_value o (3 * v.length + 3) e.out _ b' rest c s f r0 _ hq hbt hr
             have hlit : b'.drop (beforeToken e (valueKind v)).length = (appendQuote o name).1 := by
               rw [hdst]; simp
             refine ⟨[.str name], rest, f.bump :: r0, namesStep o (f :: r0) ns (.str name),
-              by rw [hsrc]; exact ht, hout _ hrn, tr_str o f r0 ns name, ?_⟩
+              by rw [hsrc]; exact ht, hout _ hrn, tr_str o f r0 ns name, ?_, ?_⟩
+            rotate_left
+            · refine good_single hbadn (fun hd s' hs' hpos => ?_)
+              cases hs'
+              have hfr := ((valueSM_ok_iff hI hb (valueKind v) _ hk).mp ⟨_, hv⟩).2
+                (by rw [hkind]; exact hq) hd hpos
+              rw [hlit] at hfr; exact hfr
             refine ⟨hI.opts, hinv, hab, ?_, fun hd => ?_⟩
             · have hs : step o.maxDepth (f :: r0) .str = some (f.bump :: r0) := by simp [step]
               exact step_bottomArr hs hI.bottom
@@ -1032,9 +1166,9 @@ theorem writeValue_inv {o : Opts} {b : Nat} {fs : Frames} {ns : List (List Bytes
                 unfold firstKind at hstp
                 rw [if_neg hq] at hstp
                 split at hstp <;> (try split at hstp) <;> (try split at hstp) <;> simp [step, hn] at hstp
-            obtain ⟨toks, ht, hrn, htr⟩ :=
+            obtain ⟨toks, ht, hrn, htr, hgd⟩ :=
               (raw_all o (3 * v.length + 4)).1 e.out _ (c :: s) b' rest f r0 hnn hlen hbt hr
-            refine ⟨toks, rest, f.bump :: r0, ns, by rw [hsrc]; exact ht, hout _ hrn, htr ns, ?_⟩
+            refine ⟨toks, rest, f.bump :: r0, ns, by rw [hsrc]; exact ht, hout _ hrn, htr ns, ?_, hgd ns⟩
             refine ⟨hI.opts, hinv, hab, ?_, fun hd => ?_⟩
             · have hs : step o.maxDepth (f :: r0) .lit = some (f.bump :: r0) := by simp [step, hnn]
               exact step_bottomArr hs hI.bottom
@@ -1043,5 +1177,33 @@ theorem writeValue_inv {o : Opts} {b : Nat} {fs : Frames} {ns : List (List Bytes
               rw [if_neg hq'] at h2
               refine ⟨h2, ?_⟩
               rw [countP_bump]; exact (hI.names hd).2
+
+
+/-- `trackRun` defined and `Good` = every token is accepted by `WriteToken`, one after the other. -/
+theorem good_run {o : Opts} (ts : List Tok) : ∀ {b : Nat} {fs fs' : Frames} {ns ns' : List (List Bytes)} {e : Enc},
+    EncInv o b fs ns e → trackRun o fs ns ts = some (fs', ns') → Good o fs ns ts → b + ts.length < 2^61 →
+    ∃ e', runToks e ts = some e' := by
+  induction ts with
+  | nil => intro b fs fs' ns ns' e _ _ _ _; exact ⟨e, rfl⟩
+  | cons t ts ih =>
+    intro b fs fs' ns ns' e hI htr hg hlen
+    simp only [trackRun] at htr
+    cases hs : step o.maxDepth fs (kindOf t) with
+    | none => rw [hs] at htr; cases htr
+    | some fs1 =>
+      rw [hs] at htr
+      simp only [Good, hs] at hg
+      have hb1 : b + 1 < 2^61 := by simp at hlen; omega
+      have hacc : (writeToken e t).2 = none :=
+        (writeToken_iff hI hb1 t).mpr ⟨by simp [hs], hg.1, hg.2.1⟩
+      cases hw : writeToken e t with
+      | mk e1 r =>
+        rw [hw] at hacc
+        simp only at hacc
+        subst hacc
+        obtain ⟨fs1', hs', hI'⟩ := writeToken_inv hI hb1 t hw
+        rw [hs] at hs'; cases hs'
+        obtain ⟨e', he'⟩ := ih hI' htr hg.2.2 (by simp at hlen ⊢; omega)
+        exact ⟨e', by simp [runToks, hw, he']⟩
 
 end JsonV.Lemmas.EncRaw
